@@ -4,6 +4,8 @@
    correspondence, DESIGN 2.4). Hypotheses: duration longer than the precision, step > 0.
    Doubled coordinates are used where frame centres fall on half ticks. Statements only. *)
 From PV Require Import Model.Window Proofs.WindowP.
+From Coq Require Reals.
+From PV Require Proofs.RoundFloatP.
 
 Theorem C14_constructor_rejects : forall dur step start wend,
   win_make dur step start wend = None <->
@@ -82,6 +84,24 @@ Theorem C14_call_flush_needed : forall s,
 Proof. exact (fun s => call_flush_needed w s). Qed.
 End C14.
 
+(* ---- binary64 level (tolerance tier of the correspondence, Check/C14.v: KWinF) ----
+   Position i as the code computes it, start + i * step with both operations rounded to nearest-even binary64 (Flocq's
+   [round] on the reals), differs from the exact position by at most a few units in the last place of the operands: the
+   checker's accepted band (2^-44 relative) is never left by a correct implementation.  Uses the standard library's
+   real-number axioms (printed below). *)
+Module Binary64.
+Import Reals. Local Open Scope R_scope.
+Theorem C14_binary64_position_error : forall start step i : R,
+  Rabs (RoundFloatP.rnd64 (start + RoundFloatP.rnd64 (i * step)) - (start + i * step))
+  <= 4 * RoundFloatP.u64 * (Rabs start + Rabs (i * step)) + 3 * RoundFloatP.eta64.
+Proof. exact RoundFloatP.binary64_position_error. Qed.
+(* closest_frame before its final rint: ((t - start) - duration / 2) / step *)
+Theorem C14_binary64_closest_frame_quotient_error : forall t start half_dur step : R, 0 < step ->
+  Rabs (RoundFloatP.rnd64 (RoundFloatP.rnd64 (RoundFloatP.rnd64 (t - start) - half_dur) / step) - (t - start - half_dur) / step)
+  <= 8 * RoundFloatP.u64 * (Rabs t + Rabs start + Rabs half_dur) / step + 8 * RoundFloatP.eta64 * (/ step + 1).
+Proof. exact RoundFloatP.binary64_quotient_error. Qed.
+End Binary64.
+
 Example C14_nonvacuous :
   exists w, win_make 2 1 0 (Some 4) = Some w /\ win_iter 0 w = [(0,2); (1,3); (2,4); (3,5)] /\
             win_len 0 w = Some 4 /\ closest_frame w 3 = 2 /\
@@ -105,3 +125,5 @@ Print Assumptions C14_range_centred.
 Print Assumptions C14_range_from_frame_0_extended.
 Print Assumptions C14_call_positions.
 Print Assumptions C14_call_flush_needed.
+Print Assumptions Binary64.C14_binary64_position_error.
+Print Assumptions Binary64.C14_binary64_closest_frame_quotient_error.
